@@ -142,6 +142,12 @@ def wavenumber_value(node, wname="wavenumber"):
                 return ev(e.args[0])
             if f in ("conj", "conjugate"):
                 return ev(e.args[0]).conj()
+            if f in ("abs", "absolute", "fabs"):
+                # the modulus is a function of the wavenumber that is none of real / imag / conj: its own atom, so that
+                # `omega = abs(k)` is DECIDED to differ from imag(k) (they agree only for Im k >= 0, Re k = 0)
+                from .alg import V as _V
+
+                return _V.atom("|%s|" % unparse(e.args[0]).replace(" ", ""))
         if isinstance(e, ast.Attribute) and e.attr in ("real", "imag"):
             r, i = parts(ev(e.value))
             return r if e.attr == "real" else i
